@@ -13,6 +13,43 @@ ENGINE = AGG + "AggregateExecutionEngine::"
 V = "sqlgrep::model::Value"
 
 
+ONE_TO_ONE = re.compile(r"^core::iter::traits::iterator::Iterator::(map|cloned|copied|enumerate|inspect|by_ref|peekable)$|IntoIterator>::into_iter$")
+MAP_SOURCE = re.compile(r"^(alloc::collections::btree::map::BTreeMap|std::collections::hash::map::HashMap)::(keys|values|iter)$")
+
+
+def _iter_chains(f):
+    """iterator-form columns: [(source call, [adapter calls], collect call or None, offending adapter or None)] for every keys()/values()/iter()
+    of a map whose result is consumed by adapters instead of a `for` loop"""
+    out = []
+    for c0 in f.calls:
+        if not MAP_SOURCE.match(short(c0.name)):
+            continue
+        cur, adapters, end, bad, looped = c0, [], None, None, False
+        for _ in range(12):
+            cons = [c for c in f.calls if c is not cur and c.args and c.args[0].get("k") in ("copy", "move") and
+                    any(o.kind == "call" and o.call is cur for o in F.origins(f, c.args[0], depth=4, through_calls=False))]
+            if not cons:
+                break
+            c = cons[0]
+            sn = short(c.name)
+            if sn.endswith("as core::iter::traits::iterator::Iterator>::next"):
+                looped = True
+                break
+            if sn == "core::iter::traits::iterator::Iterator::collect":
+                end = c
+                break
+            if ONE_TO_ONE.search(sn):
+                adapters.append(c)
+                cur = c
+                continue
+            bad = c
+            break
+        if looped:
+            continue
+        out.append((c0, adapters, end, bad))
+    return out
+
+
 def _rect(R, rid):
     f = R.need_fn(ENGINE + "extract_result_rows_by_column")
     P = R.prog
@@ -22,8 +59,10 @@ def _rect(R, rid):
         if re.search(r"btree::map::(Keys|Values|Iter)<'a, K, V> as core::iter::traits::iterator::Iterator>::next$", sn) or \
                 re.search(r"hash::map::(Keys|Values|Iter)<'a, K, V> as core::iter::traits::iterator::Iterator>::next$", sn):
             loops.append(c)
-    if len(loops) < 2:
-        R.violation(rid, "extract_result_rows_by_column|loops", "expected the per-column loops over the group table (found %d)" % len(loops), [f.loc()])
+    chains = _iter_chains(f)
+    if len(loops) + len(chains) < 2:
+        R.violation(rid, "extract_result_rows_by_column|loops", "expected the per-column traversals of the group table, one for the key columns and "
+                    "one for the aggregate columns (found %d)" % (len(loops) + len(chains)), [f.loc()])
         return
     for nx in loops:
         g = PR.discr_guard(f, nx, "Some")
@@ -36,6 +75,15 @@ def _rect(R, rid):
         else:
             R.violation(rid, key, "per group %s values are pushed into the result column (must be exactly 1 on every path): the result table is not "
                                   "rectangular, so execute_result indexes out of bounds or shows another group's value" % (r,), [nx.loc()])
+    for c0, adapters, end, bad in chains:
+        key = "extract_result_rows_by_column|" + short(c0.name).split("::")[-1]
+        if bad is not None or end is None:
+            R.violation(rid, key, "the result column is built from the group table through %s, which is not one value per group: the result table "
+                                  "is not rectangular, so execute_result indexes out of bounds or shows another group's value"
+                        % (short(bad.name).split("::")[-1] if bad is not None else "an iterator that is never collected"), [(bad or c0).loc()])
+        else:
+            R.ok(rid, key, "one value per group: %s().%s.collect()" % (short(c0.name).split("::")[-1],
+                                                                     ".".join(short(a.name).split("::")[-1] for a in adapters) or "-"), c0.loc())
 
 
 def _all_through(f, op, tcalls, depth):
@@ -95,6 +143,26 @@ def _transform(R):
             R.violation("C04.transform", "extract_result_rows_by_column|untransformed",
                         "a value is pushed into an aggregate's result column without passing through the aggregate's wrapper expression "
                         "(e.g. the COUNT = 0 / NULL fallback of a group without entry): `COUNT(c) + 1` would show 0", [pc.loc()])
+    # iterator form: values().map(|subgroups| ..).collect(): what the map closure returns went through the transform closure
+    for c0, adapters, end, bad in _iter_chains(f):
+        if not short(c0.name).endswith("::values") and not short(c0.name).endswith("::iter"):
+            continue
+        for a in adapters:
+            if not short(a.name).endswith("Iterator::map"):
+                continue
+            for ck in (a.func.get("closure_args") or []):
+                g = P.fns.get(ck)
+                if g is None:
+                    continue
+                gt = [c for c in g.calls if (c.func.get("trait") or "").startswith("core::ops::function::Fn") and
+                      any(tcl.key.endswith(x) or x == tcl.raw["key"] for x in (c.func.get("closure_args") or []))]
+                n += 1
+                if gt and _all_through(g, {"k": "move", "pl": {"l": 0, "p": []}}, gt, 12):
+                    R.ok("C04.transform", "extract_result_rows_by_column|values", "collected value = transform(value)", a.loc())
+                else:
+                    R.violation("C04.transform", "extract_result_rows_by_column|untransformed",
+                                "a value is collected into an aggregate's result column without passing through the aggregate's wrapper "
+                                "expression (e.g. the COUNT = 0 / NULL fallback of a group without entry): `COUNT(c) + 1` would show 0", [a.loc()])
     if n == 0:
         R.violation("C04.transform", "extract_result_rows_by_column|no-values-loop", "no per-group push of aggregate values found", [f.loc()])
 
@@ -155,7 +223,7 @@ def run(R):
     if n_iso < 5:
         R.violation("C04.isolation", "update_aggregate|count", "fewer group accesses than expected (%d)" % n_iso, [ua.loc()])
     # ---- having index
-    def sum_leaves(fn, op, depth=6):
+    def sum_leaves(fn, op, depth=12):
         """leaves of the additive expression an operand evaluates"""
         if op["k"] == "const":
             return [("const", op.get("int"))]
@@ -163,8 +231,18 @@ def run(R):
             return [("var", None)]
         l = op["pl"]["l"]
         if op["pl"]["p"]:
-            # field of a tuple produced by AddWithOverflow: (sum, overflowed).0
-            pass
+            # field of a tuple produced by AddWithOverflow: (sum, overflowed).0 - or a usize field of a local parameter struct
+            # (`HavingFilter { first_having_slot: aggregates.len(), .. }`): the expression stored where the struct is built
+            fe = [e for e in op["pl"]["p"] if isinstance(e, dict) and "f" in e]
+            if fe and fe[-1].get("ty") == "usize" and (fe[-1].get("adt") or "").startswith("sqlgrep::") and fe[-1]["adt"] in P.adts \
+                    and not fe[-1]["adt"].endswith("AggregateExecutionEngine"):
+                built = []
+                for g2 in P.fns.values():
+                    for i2, s2 in g2.stmts():
+                        if s2["k"] == "assign" and s2["rv"]["k"] == "aggr" and s2["rv"].get("adt") == fe[-1]["adt"] and len(s2["rv"]["ops"]) > fe[-1]["f"]:
+                            built.append(norm(sum_leaves(PR.view(P, g2) if g2.kind != "Closure" else g2, s2["rv"]["ops"][fe[-1]["f"]], depth - 1)))
+                if built and all(b == built[0] for b in built):
+                    return [x if len(x) > 1 else ("var", None) for x in built[0]]
         defs = [s_ for i_, s_ in fn.stmts() if s_["k"] == "assign" and s_["pl"]["l"] == l and not s_["pl"]["p"]]
         cdefs = [c for c in fn.calls if c.dest is not None and c.dest["l"] == l and not c.dest["p"]]
         if cdefs:
@@ -188,7 +266,7 @@ def run(R):
         return sorted(("len", x[1]) if x[0] == "len" else (("const", x[1]) if x[0] == "const" else ("var",)) for x in leaves)
 
     writer = None
-    for ch in P.children.get(R.need_fn(ENGINE + "update_aggregates").key, []):
+    for ch in [PR.view(P, x) for x in P.children.get(R.need_fn(ENGINE + "update_aggregates").key, [])]:
         for c in ch.calls:
             if short(c.name) == ENGINE + "update_aggregate":
                 # the aggregate index is the usize parameter of update_aggregate (wherever it sits in the signature)
